@@ -354,3 +354,16 @@ pub open spec fn reset_pre(ac: ArrayCollection, g: Group, k: Seq<char>, b: Sampl
     // array of phase `p` of THIS key and group, for THIS chain
     &&& b.len > 0 ==> fits_both(ac, g, k, as_chunk(bv(b))) && grants(ArrId { phase: p, group: g, key: k }, as_chunk(bv(b)), chain)
 }
+
+/// `SampleBuffer::total_pushed` in mathematical integers (same formula as [C15.total] of unit zarrbuf / zarrevents)
+pub open spec fn total_of(b: SampleBuffer) -> int {
+    b.current_chunk as int * b.full_at as int + b.len as int
+}
+/// [C14.sw] preconditions of the whole switch block of record_sample (then-branch of `if is_first_draw`): `reset_pre`
+/// for EVERY draw buffer and EVERY stats buffer, the phase that ends is warmup
+pub open spec fn switch_pre(s: ZarrChainStorage) -> bool {
+    // A-nooverflow (unit zarrevents): total_pushed of every statistics buffer fits in u64
+    &&& forall|f: Seq<char>| s.stats_buffers@.contains_key(f) ==> total_of(#[trigger] s.stats_buffers@[f]) <= u64::MAX
+    &&& forall|e: (Seq<char>, SampleBuffer)| #[trigger] has_entry(s.draw_buffers@, e) ==> reset_pre(*s.arrays, Group::Draw, e.0, e.1, Phase::Warmup, s.chain as int)
+    &&& forall|e: (Seq<char>, SampleBuffer)| #[trigger] has_entry(s.stats_buffers@, e) ==> reset_pre(*s.arrays, Group::Param, e.0, e.1, Phase::Warmup, s.chain as int)
+}
